@@ -1,4 +1,4 @@
     ensures
         r is Ok ==> step_links_ok(*step, links@, pubkeys@, r->Ok_0@),     // [C02,C15,C12]
-        r is Ok ==> step_links_exact(*step, links@, pubkeys@, r->Ok_0@),     // [C13,C02,C15]
+        r is Ok ==> step_links_exact(*step, links@, pubkeys@, r->Ok_0@),     // [C13,C02,C15,C07]
         r is Ok <==> counting_links(*step, links@, pubkeys@).len() >= step.threshold,     // [C02,C13,C15,C12]
